@@ -489,6 +489,65 @@ def methods_for(o):
     return [m for m in METHODS if m != "copy" or hasattr(o, "copy")]
 
 
+def rebuilt(o):
+    """the object obtained by handing o's public attributes to the
+    constructor of its class (harness code, not pywbem's copy())."""
+    if isinstance(o, CIMInstanceName):
+        return CIMInstanceName(o.classname, keybindings=o.keybindings,
+                               host=o.host, namespace=o.namespace)
+    if isinstance(o, CIMClassName):
+        return CIMClassName(o.classname, host=o.host, namespace=o.namespace)
+    if isinstance(o, CIMInstance):
+        r = CIMInstance(o.classname, properties=o.properties,
+                        qualifiers=o.qualifiers)
+        r.path = o.path
+        return r
+    if isinstance(o, CIMClass):
+        return CIMClass(o.classname, properties=o.properties,
+                        methods=o.methods, superclass=o.superclass,
+                        qualifiers=o.qualifiers, path=o.path)
+    if isinstance(o, CIMProperty):
+        return CIMProperty(o.name, o.value, type=o.type,
+                           class_origin=o.class_origin,
+                           array_size=o.array_size, propagated=o.propagated,
+                           is_array=o.is_array,
+                           reference_class=o.reference_class,
+                           embedded_object=o.embedded_object,
+                           qualifiers=o.qualifiers)
+    if isinstance(o, CIMMethod):
+        return CIMMethod(o.name, return_type=o.return_type,
+                         class_origin=o.class_origin, propagated=o.propagated,
+                         parameters=o.parameters, qualifiers=o.qualifiers)
+    if isinstance(o, CIMParameter):
+        return CIMParameter(o.name, o.type, reference_class=o.reference_class,
+                            is_array=o.is_array, array_size=o.array_size,
+                            value=o.value, embedded_object=o.embedded_object,
+                            qualifiers=o.qualifiers)
+    if isinstance(o, CIMQualifier):
+        return CIMQualifier(o.name, o.value, type=o.type,
+                            propagated=o.propagated,
+                            overridable=o.overridable,
+                            tosubclass=o.tosubclass, toinstance=o.toinstance,
+                            translatable=o.translatable)
+    if isinstance(o, CIMQualifierDeclaration):
+        return CIMQualifierDeclaration(
+            o.name, o.type, value=o.value, is_array=o.is_array,
+            array_size=o.array_size, scopes=o.scopes,
+            overridable=o.overridable, tosubclass=o.tosubclass,
+            toinstance=o.toinstance, translatable=o.translatable)
+    return o
+
+
+def ctor_stable(o):
+    """True if o's public attributes are a state its class constructor
+    accepts and reproduces (objects driven into other states through the
+    setters are outside the domain of .copy(), which re-constructs)."""
+    try:
+        return project(rebuilt(o)) == project(o)
+    except (ValueError, TypeError):
+        return False
+
+
 def copy_event(build, m, muts=()):
     """build() -> fresh original.  muts: list of (steps, access, label, fn);
     each one is applied to a fresh (original, copy) pair."""
@@ -769,3 +828,618 @@ def cell_mutations(cell, slot):
             muts.append(("list:replace", "set", rep0))
             muts.append(("list:pop", "drop:#i", lambda lst: lst.pop(0)))
     return muts
+
+
+# ---------------------------------------------------------------------------
+# replay of heap behaviours printed by TLC (spec/CimEqHeap.tla)
+# ---------------------------------------------------------------------------
+def _n(b, c=0):
+    return {"b": b, "c": c}
+
+
+def _s(tok, num=""):
+    return {"k": "S", "nm": [], "at": [tok, num], "ch": []}
+
+
+def _e(key, node):
+    return {"key": key, "n": node}
+
+
+def _v(node):
+    return [_e(dict(NONAME), node)]
+
+
+def _l(nodes):
+    return {"k": "L", "nm": [], "at": [], "ch": [[_e(dict(NONAME), x)
+                                                  for x in nodes]]}
+
+
+def heap_root_node(root):
+    """nodes with the same cell structure as RootTree(root) in CimEqHeap.tla
+    (scalar content is free: scalars are not cells)."""
+    qual = {"k": "Qualifier", "nm": [_n("n1")],
+            "at": ["s:string", "none", "True", "none", "False", "none"],
+            "ch": [_v(_l([_s("str:v1"), _s("str:v2")]))]}
+    quals = [_e(_n("n1"), qual)]
+    emb = {"k": "Instance", "nm": [_n("n2")], "at": [], "ch": [[], [], []]}
+    ref = {"k": "InstanceName", "nm": [_n("n3"), dict(NONAME), _n("n2")],
+           "at": [], "ch": [[_e(_n("n1"), _s("int:1", "1"))]]}
+    iname = {"k": "InstanceName", "nm": [_n("n1"), _n("n1"), _n("n1")],
+             "at": [], "ch": [[_e(_n("n2"), ref),
+                               _e(_n("n3"), _s("str:x"))]]}
+    cname = {"k": "ClassName", "nm": [_n("n1"), _n("n1"), _n("n1")],
+             "at": [], "ch": []}
+    pat = ["s:string", "s:instance", "True", "none", "False"]
+    prop = {"k": "Property", "nm": [_n("n1"), dict(NONAME), _n("n2")],
+            "at": pat, "ch": [_v(_l([emb])), quals]}
+    propobj = {"k": "Property", "nm": [_n("n2"), dict(NONAME), dict(NONAME)],
+               "at": ["s:string", "s:instance", "False", "none", "none"],
+               "ch": [_v(emb), quals]}
+    propref = {"k": "Property", "nm": [_n("n3"), _n("n3"), dict(NONAME)],
+               "at": ["s:reference", "none", "False", "none", "none"],
+               "ch": [_v(ref), []]}
+    parm = {"k": "Parameter", "nm": [_n("n1"), dict(NONAME)],
+            "at": ["s:string", "s:instance", "True", "none"],
+            "ch": [_v(_l([emb])), quals]}
+    meth = {"k": "Method", "nm": [_n("n1"), _n("n2")],
+            "at": ["s:uint8", "False"],
+            "ch": [[_e(_n("n1"), parm)], quals]}
+    inst = {"k": "Instance", "nm": [_n("n1")], "at": [],
+            "ch": [_v(iname), [_e(_n("n1"), prop)], quals]}
+    cls = {"k": "Class", "nm": [_n("n1"), _n("n2")], "at": [],
+           "ch": [_v(cname), [_e(_n("n2"), propobj)], [_e(_n("n1"), meth)],
+                  quals]}
+    qdecl = {"k": "QualifierDeclaration", "nm": [_n("n1")],
+             "at": ["s:string", "True", "none", "True", "none", "none",
+                    "False"],
+             "ch": [_v(_l([_s("str:v1")])), [_e(_n("n1"), _s("bool:True", "1")),
+                                             _e(_n("n2"), _s("bool:True", "1"))]]}
+    ndict = {"k": "NocaseDict", "nm": [], "at": [],
+             "ch": [[_e(_n("n1"), qual), _e(_n("n2"), _s("int:1", "1"))]]}
+    return {"InstanceName": iname, "ClassName": cname, "Instance": inst,
+            "Class": cls, "Property": prop, "PropertyObj": propobj,
+            "PropertyRef": propref, "Method": meth, "Parameter": parm,
+            "Qualifier": qual, "QualifierDeclaration": qdecl,
+            "NocaseDict": ndict}[root]
+
+
+HEAP_ROOTS = ("InstanceName", "ClassName", "Instance", "Class", "Property",
+              "PropertyObj", "PropertyRef", "Method", "Parameter",
+              "Qualifier", "QualifierDeclaration", "NocaseDict")
+
+
+def follow(root, steps):
+    """the concrete cell addressed by step tokens (first matching kid)."""
+    x = root
+    slot = ""
+    for st in steps:
+        key, _, _t = st.partition(":")
+        if key == "#k":
+            x = next(v for v in x.values() if isinstance(v, OBJ_CLASSES))
+        elif key == "#i":
+            x = next(v for v in x if isinstance(v, OBJ_CLASSES))
+        else:
+            slot = key
+            x = getattr(x, SLOT_ATTR[key])
+            if x is None:
+                raise LookupError(st)
+    return x, slot
+
+
+def behaviour_event(build, m, muts, rng):
+    """one TLC heap behaviour on real objects: copy by m, then the mutations
+    one after the other on the same copy; the original is projected after
+    every mutation."""
+    o = build()
+    base = project(o)
+    c = do_copy(m, o)
+    e = {"ev": "copy", "m": m, "k": base["k"], "o": base, "c": project(c),
+         "ceq": ob(lambda: c == o), "ceqr": ob(lambda: o == c),
+         "cne": ob(lambda: c != o), "h": ob(lambda: hash(c) == hash(o)),
+         "muts": []}
+    for mu in muts:
+        steps = list(mu["steps"])
+        try:
+            cell, slot = follow(c, steps)
+        except (LookupError, StopIteration, AttributeError, TypeError):
+            break
+        want = "set" if mu["v"] == "set" else "drop:" + mu["key"]
+        cands = [x for x in cell_mutations(cell, slot) if x[1] == want]
+        if not cands:
+            break
+        label, _variant, fn = cands[rng.randrange(len(cands))]
+        before = project(c)
+        try:
+            fn(cell)
+        except Exception as exc:  # noqa
+            e["muts"].append({"steps": steps, "same": "T", "what": label,
+                              "moved": "X:%s" % type(exc).__name__})
+            break
+        e["muts"].append({"steps": steps, "what": label,
+                          "same": "T" if project(o) == base else "F",
+                          "moved": "T" if project(c) != before else "F"})
+    return e
+
+
+# ---------------------------------------------------------------------------
+# seeded random rich objects (as nodes) and variation operators
+# ---------------------------------------------------------------------------
+BAGS = {"InstanceName": {0}, "Instance": {1, 2}, "Class": {1, 2, 3},
+        "Property": {1}, "Method": {0, 1}, "Parameter": {1},
+        "QualifierDeclaration": {1}, "NocaseDict": {0}}
+FLAGS = ["none", "True", "False"]
+CIMTYPES = ["string", "uint8", "sint8", "uint16", "sint16", "uint32",
+            "sint32", "uint64", "sint64", "real32", "real64", "boolean",
+            "datetime"]
+AT_DOMS = {
+    "Property": [["s:" + t for t in CIMTYPES] + ["s:reference"],
+                 ["none", "s:instance", "s:object"], FLAGS,
+                 ["none", "i:1", "i:5"], FLAGS],
+    "Method": [["s:" + t for t in CIMTYPES], FLAGS],
+    "Parameter": [["s:" + t for t in CIMTYPES] + ["s:reference"],
+                  ["none", "s:instance", "s:object"], FLAGS,
+                  ["none", "i:1", "i:5"]],
+    "Qualifier": [["s:" + t for t in CIMTYPES], FLAGS, FLAGS, FLAGS, FLAGS,
+                  FLAGS],
+    "QualifierDeclaration": [["s:" + t for t in CIMTYPES], FLAGS,
+                             ["none", "i:1", "i:5"], FLAGS, FLAGS, FLAGS,
+                             FLAGS],
+}
+DEFAULTS = {("Property", 2): "False", ("Property", 4): "False",
+            ("Method", 1): "False", ("Parameter", 2): "False",
+            ("Qualifier", 1): "False", ("Qualifier", 2): "True",
+            ("Qualifier", 3): "True", ("Qualifier", 4): "False",
+            ("Qualifier", 5): "False",
+            ("QualifierDeclaration", 1): "False",
+            ("QualifierDeclaration", 3): "True",
+            ("QualifierDeclaration", 4): "True",
+            ("QualifierDeclaration", 5): "False",
+            ("QualifierDeclaration", 6): "False"}
+DT_TEXTS = ["20140924193040.654321+120", "20140924183040.654321+060",
+            "20140924193040.654***+120", "20140924193040.654000+120",
+            "19991231235959.999999-720", "20000101000000.000000+000",
+            "2014092419****.******+000", "00000012010203.000004:000",
+            "00000012010203.******:000", "00000012010203.000000:000",
+            "99999999235959.999999:000", "00000000000000.000000:000"]
+STRINGS = ["", "a", "A", "abc", "ABC", " x ", "ä", "Ä", "1", "True",
+           "two\nlines", "Alpha", "alpha"]
+INT_RANGE = {"uint8": (0, 255), "sint8": (-128, 127), "uint16": (0, 65535),
+             "sint16": (-32768, 32767), "uint32": (0, 2 ** 32 - 1),
+             "sint32": (-2 ** 31, 2 ** 31 - 1), "uint64": (0, 2 ** 64 - 1),
+             "sint64": (-2 ** 63, 2 ** 63 - 1)}
+NUM_FAMILY = {"1": ["int:1", "uint8:1", "uint32:1", "sint64:1", "float:1.0",
+                    "real32:1.0", "bool:True"],
+              "0": ["int:0", "uint8:0", "sint16:0", "float:0.0", "real64:0.0",
+                    "bool:False"],
+              "2": ["int:2", "uint16:2", "float:2.0", "real64:2.0"]}
+
+
+class RichGen:
+    def __init__(self, rng):
+        self.rng = rng
+
+    # names
+    def name(self, table=GENERIC, bases=("n1", "n2", "n3", "n4", "n5")):
+        b = self.rng.choice(bases)
+        return {"b": b, "c": self.rng.randrange(len(table[b]))}
+
+    def optname(self, table=GENERIC, p=0.5):
+        return self.name(table) if self.rng.random() < p else dict(NONAME)
+
+    def distinct(self, n):
+        return self.rng.sample(["n1", "n2", "n3", "n4", "n5"], n)
+
+    def keyfor(self, nm):
+        if self.rng.random() < 0.85:
+            return dict(nm)
+        return {"b": nm["b"], "c": self.rng.randrange(len(GENERIC[nm["b"]]))}
+
+    # values
+    def dt(self):
+        return {"k": "DateTime", "nm": [],
+                "at": ["?", "?", "?", "?", self.rng.choice(DT_TEXTS)],
+                "ch": []}
+
+    def scalar(self, t, depth=0):
+        r = self.rng
+        if t == "string":
+            return _s("str:" + r.choice(STRINGS))
+        if t in INT_RANGE:
+            lo, hi = INT_RANGE[t]
+            v = r.choice([lo, hi, 0, 1, 2, max(lo, -1), min(hi, 100)])
+            return _s("%s:%d" % (t, v), str(v))
+        if t in FLOAT_TYPES:
+            v = r.choice([0.0, 1.0, 1.5, -2.25, 2.0, 1e10])
+            return _s("%s:%r" % (t, v), _num(v))
+        if t == "boolean":
+            v = r.random() < 0.5
+            return _s("bool:%s" % v, "1" if v else "0")
+        if t == "datetime":
+            return self.dt()
+        if t == "reference":
+            return self.instancename(depth)
+        raise ValueError(t)
+
+    def typed_value(self, t, array, depth=0):
+        r = self.rng
+        if r.random() < 0.15:
+            return _s("none")
+        if array:
+            return _l([self.scalar(t, depth) for _ in range(r.randrange(4))])
+        return self.scalar(t, depth)
+
+    def untyped(self, depth):
+        r = self.rng
+        x = r.random()
+        if x < 0.5:
+            num = r.choice(sorted(NUM_FAMILY))
+            return _s(r.choice(NUM_FAMILY[num]), num)
+        if x < 0.75:
+            return _s("str:" + r.choice(STRINGS))
+        if x < 0.85:
+            return self.dt()
+        if x < 0.95 and depth > 0:
+            return self.instancename(depth - 1)
+        return _s("sint64:-1", "-1")
+
+    # objects
+    def flag(self):
+        return self.rng.choice(FLAGS)
+
+    def qualifier(self, base=None):
+        r = self.rng
+        t = r.choice(["string", "string", "uint8", "boolean", "sint32",
+                      "real32", "datetime"])
+        arr = r.random() < 0.25
+        nm = self.name() if base is None else \
+            {"b": base, "c": r.randrange(len(GENERIC[base]))}
+        return {"k": "Qualifier", "nm": [nm],
+                "at": ["s:" + t] + [self.flag() for _ in range(5)],
+                "ch": [_v(self.typed_value(t, arr))]}
+
+    def quals(self, maxn=2):
+        out = []
+        for b in self.distinct(self.rng.randrange(maxn + 1)):
+            q = self.qualifier(b)
+            out.append(_e(self.keyfor(q["nm"][0]), q))
+        return out
+
+    def prop(self, depth, base=None):
+        r = self.rng
+        nm = self.name() if base is None else \
+            {"b": base, "c": r.randrange(len(GENERIC[base]))}
+        x = r.random()
+        emb = "none"
+        refcls = dict(NONAME)
+        arr = r.random() < 0.3
+        if x < 0.55 or depth <= 0:
+            t = r.choice(CIMTYPES)
+            val = self.typed_value(t, arr)
+        elif x < 0.75:
+            t = "string"
+            emb = r.choice(["s:instance", "s:object"])
+            mk = (lambda: self.instance(depth - 1)) \
+                if emb == "s:instance" or r.random() < 0.6 \
+                else (lambda: self.cls(depth - 1))
+            val = _l([mk() for _ in range(r.randrange(1, 3))]) if arr else mk()
+        else:
+            t = "reference"
+            arr = False
+            refcls = self.optname()
+            val = self.instancename(depth - 1) if r.random() < 0.85 \
+                else _s("none")
+        return {"k": "Property",
+                "nm": [nm, refcls, self.optname(p=0.3)],
+                "at": ["s:" + t, emb, "True" if arr else "False",
+                       r.choice(["none", "i:5"]) if arr else "none",
+                       self.flag()],
+                "ch": [_v(val), self.quals(1)]}
+
+    def props(self, depth, maxn=4):
+        out = []
+        for b in self.distinct(self.rng.randrange(maxn + 1)):
+            p = self.prop(depth, b)
+            out.append(_e(self.keyfor(p["nm"][0]), p))
+        return out
+
+    def instancename(self, depth=1):
+        r = self.rng
+        kb = []
+        for b in self.distinct(r.randrange(4)):
+            kb.append(_e({"b": b, "c": r.randrange(len(GENERIC[b]))},
+                         self.untyped(depth)))
+        return {"k": "InstanceName",
+                "nm": [self.name(), self.optname(HOST, 0.4),
+                       self.optname(NAMESPACE, 0.6)],
+                "at": [], "ch": [kb]}
+
+    def classname(self):
+        return {"k": "ClassName",
+                "nm": [self.name(), self.optname(HOST, 0.4),
+                       self.optname(NAMESPACE, 0.6)],
+                "at": [], "ch": []}
+
+    def instance(self, depth=2):
+        r = self.rng
+        path = _v(self.instancename(1)) if r.random() < 0.5 else []
+        return {"k": "Instance", "nm": [self.name()], "at": [],
+                "ch": [path, self.props(depth), self.quals(1)]}
+
+    def param(self, base=None):
+        r = self.rng
+        nm = self.name() if base is None else \
+            {"b": base, "c": r.randrange(len(GENERIC[base]))}
+        arr = r.random() < 0.3
+        if r.random() < 0.2:
+            t, refcls, val = "reference", self.optname(), _s("none")
+            arr = False
+        else:
+            t, refcls = r.choice(CIMTYPES), dict(NONAME)
+            val = self.typed_value(t, arr) if r.random() < 0.5 else _s("none")
+        return {"k": "Parameter", "nm": [nm, refcls],
+                "at": ["s:" + t, "none", "True" if arr else "False",
+                       r.choice(["none", "i:5"]) if arr else "none"],
+                "ch": [_v(val), self.quals(1)]}
+
+    def method(self, base=None):
+        r = self.rng
+        nm = self.name() if base is None else \
+            {"b": base, "c": r.randrange(len(GENERIC[base]))}
+        ps = []
+        for b in self.distinct(r.randrange(3)):
+            p = self.param(b)
+            ps.append(_e(self.keyfor(p["nm"][0]), p))
+        return {"k": "Method", "nm": [nm, self.optname(p=0.4)],
+                "at": ["s:" + r.choice(CIMTYPES), self.flag()],
+                "ch": [ps, self.quals(1)]}
+
+    def cls(self, depth=1):
+        r = self.rng
+        ms = []
+        for b in self.distinct(r.randrange(3)):
+            m = self.method(b)
+            ms.append(_e(self.keyfor(m["nm"][0]), m))
+        path = _v(self.classname()) if r.random() < 0.4 else []
+        return {"k": "Class", "nm": [self.name(), self.optname(p=0.5)],
+                "at": [],
+                "ch": [path, self.props(depth, 3), ms, self.quals(2)]}
+
+    def qdecl(self):
+        r = self.rng
+        t = r.choice(CIMTYPES)
+        arr = r.random() < 0.3
+        sc = [_e({"b": b, "c": r.randrange(len(GENERIC[b]))},
+                 _s("bool:True", "1"))
+              for b in self.distinct(r.randrange(4))]
+        return {"k": "QualifierDeclaration", "nm": [self.name()],
+                "at": ["s:" + t, "True" if arr else "False",
+                       r.choice(["none", "i:5"]) if arr else "none"] +
+                [self.flag() for _ in range(4)],
+                "ch": [_v(self.typed_value(t, arr)), sc]}
+
+    def ndict(self):
+        r = self.rng
+        items = []
+        for b in self.distinct(r.randrange(5)):
+            x = r.random()
+            if x < 0.6:
+                v = self.untyped(1)
+            elif x < 0.7:
+                v = _s("none")
+            elif x < 0.85:
+                v = self.qualifier()
+            else:
+                v = self.classname()
+            items.append(_e({"b": b, "c": r.randrange(len(GENERIC[b]))}, v))
+        return {"k": "NocaseDict", "nm": [], "at": [], "ch": [items]}
+
+    def make(self, kind):
+        return {"InstanceName": lambda: self.instancename(1),
+                "ClassName": self.classname,
+                "Instance": lambda: self.instance(2),
+                "Class": lambda: self.cls(1),
+                "Property": lambda: self.prop(2),
+                "Method": self.method, "Parameter": self.param,
+                "Qualifier": self.qualifier,
+                "QualifierDeclaration": self.qdecl,
+                "DateTime": self.dt, "NocaseDict": self.ndict}[kind]()
+
+    # ---- variation operators (node -> node) ----
+    def _table_for(self, kind, idx):
+        if kind in ("InstanceName", "ClassName"):
+            return [GENERIC, HOST, NAMESPACE][idx]
+        return GENERIC
+
+    def recase(self, n):
+        r = self.rng
+        m = copy_.deepcopy(n)
+
+        def rec(x):
+            for i, nm in enumerate(x["nm"]):
+                if nm["b"]:
+                    nm["c"] = r.randrange(len(self._table_for(x["k"], i)
+                                              [nm["b"]]))
+            for g in x["ch"]:
+                for e in g:
+                    if e["key"]["b"]:
+                        e["key"]["c"] = r.randrange(
+                            len(GENERIC[e["key"]["b"]]))
+                    rec(e["n"])
+        rec(m)
+        return m
+
+    def reorder(self, n):
+        r = self.rng
+        m = copy_.deepcopy(n)
+
+        def rec(x):
+            for gi, g in enumerate(x["ch"]):
+                for e in g:
+                    rec(e["n"])
+                if gi in BAGS.get(x["k"], ()):
+                    r.shuffle(g)
+        rec(m)
+        return m
+
+    def _sites(self, n, pred):
+        out = []
+
+        def rec(x, parent, gi):
+            if pred(x, parent, gi):
+                out.append(x)
+            for i, g in enumerate(x["ch"]):
+                for e in g:
+                    rec(e["n"], x, i)
+        rec(n, None, -1)
+        return out
+
+    def numswap(self, n):
+        """same number, other Python type, in an untyped slot (-> UNSPEC)."""
+        m = copy_.deepcopy(n)
+        sites = self._sites(
+            m, lambda x, p, gi: x["k"] == "S" and p is not None and
+            p["k"] in ("InstanceName", "NocaseDict") and
+            x["at"][1] in NUM_FAMILY)
+        if not sites:
+            return None
+        x = self.rng.choice(sites)
+        x["at"][0] = self.rng.choice(
+            [t for t in NUM_FAMILY[x["at"][1]] if t != x["at"][0]])
+        return m
+
+    def flagdefault(self, n):
+        m = copy_.deepcopy(n)
+        sites = []
+        for x in self._sites(m, lambda x, p, gi: x["k"] in AT_DOMS):
+            for i, tok in enumerate(x["at"]):
+                d = DEFAULTS.get((x["k"], i))
+                if d and tok in ("none", d):
+                    sites.append((x, i, d))
+        if not sites:
+            return None
+        x, i, d = self.rng.choice(sites)
+        x["at"][i] = d if x["at"][i] == "none" else "none"
+        return m
+
+    def mutate1(self, n):
+        """change exactly one public attribute somewhere in the tree."""
+        r = self.rng
+        m = copy_.deepcopy(n)
+        sites = self._sites(m, lambda x, p, gi: True)
+        r.shuffle(sites)
+        for x in sites:
+            ops = []
+            k = x["k"]
+            if k == "S" and x["at"][0] != "none":
+                ops.append("scalar")
+            if k == "DateTime":
+                ops.append("dt")
+            if k == "L":
+                ops.append("list")
+            if k in AT_DOMS:
+                ops.append("at")
+            if x["nm"]:
+                ops.append("name")
+            if BAGS.get(k):
+                ops.append("bag")
+            if not ops:
+                continue
+            op = r.choice(ops)
+            if op == "scalar":
+                t, _, v = x["at"][0].partition(":")
+                if t == "str":
+                    x["at"][0] = "str:" + r.choice(
+                        [s for s in STRINGS if s != v])
+                elif t == "bool":
+                    nv = v != "True"
+                    x["at"] = ["bool:%s" % nv, "1" if nv else "0"]
+                elif t in ("float",) or t in FLOAT_TYPES:
+                    nv = float(v) + 0.5
+                    x["at"] = ["%s:%r" % (t, nv), _num(nv)]
+                else:
+                    iv = int(v)
+                    lo, hi = INT_RANGE.get(t, (-10 ** 9, 10 ** 9))
+                    nv = iv + 1 if iv + 1 <= hi else iv - 1
+                    x["at"] = ["%s:%d" % (t, nv), str(nv)]
+                return m
+            if op == "dt":
+                x["at"][4] = r.choice(
+                    ["20140924193041.654321+120", "00000013010203.000004:000"]
+                    if x["at"][4] not in ("20140924193041.654321+120",)
+                    else ["20140924193042.654321+120"])
+                return m
+            if op == "list":
+                g = x["ch"][0]
+                if g and r.random() < 0.4:
+                    g.pop(r.randrange(len(g)))
+                elif len(g) >= 2 and g[0] != g[-1] and r.random() < 0.5:
+                    g[0], g[-1] = g[-1], g[0]
+                else:
+                    g.append(copy_.deepcopy(g[0]) if g else
+                             _e(dict(NONAME), _s("str:x")))
+                return m
+            if op == "at":
+                i = r.randrange(len(x["at"]))
+                dom = [t for t in AT_DOMS[k][i] if t != x["at"][i]]
+                d = DEFAULTS.get((k, i))
+                if d and x["at"][i] in ("none", d):
+                    dom = [t for t in dom if t not in ("none", d)]
+                x["at"][i] = r.choice(dom)
+                return m
+            if op == "name":
+                i = r.randrange(len(x["nm"]))
+                tab = self._table_for(k, i)
+                cur = x["nm"][i]["b"]
+                if cur and i > 0 and r.random() < 0.3:
+                    x["nm"][i] = dict(NONAME)
+                else:
+                    b = r.choice([b for b in ("n1", "n2", "n3", "n4", "n5")
+                                  if b != cur])
+                    x["nm"][i] = {"b": b, "c": r.randrange(len(tab[b]))}
+                # a dictionary key must keep matching the child's own name:
+                # only rename objects that are not stored under their name
+                if i == 0 and x is not m and k not in ("InstanceName",
+                                                       "ClassName",
+                                                       "Instance", "Class"):
+                    self._rekey(m, x)
+                return m
+            if op == "bag":
+                gi = r.choice(sorted(BAGS[k]))
+                g = x["ch"][gi]
+                if g and r.random() < 0.6:
+                    g.pop(r.randrange(len(g)))
+                    return m
+                used = {e["key"]["b"] for e in g}
+                free = [b for b in ("n1", "n2", "n3", "n4", "n5")
+                        if b not in used]
+                if not free:
+                    continue
+                b = r.choice(free)
+                child = self._child_for(k, gi, b)
+                g.append(_e({"b": b, "c": 0}, child))
+                return m
+        return None
+
+    def _rekey(self, root, child):
+        def rec(x):
+            for g in x["ch"]:
+                for e in g:
+                    if e["n"] is child and e["key"]["b"]:
+                        e["key"] = dict(child["nm"][0])
+                    rec(e["n"])
+        rec(root)
+
+    def _child_for(self, k, gi, b):
+        if k == "InstanceName":
+            return _s("str:new")
+        if k == "NocaseDict":
+            return _s("int:1", "1")
+        if k == "QualifierDeclaration":
+            return _s("bool:True", "1")
+        if k in ("Instance", "Class") and gi == 1:
+            return self.prop(0, b)
+        if k == "Class" and gi == 2:
+            return self.method(b)
+        if k == "Method" and gi == 0:
+            return self.param(b)
+        return self.qualifier(b)
